@@ -384,13 +384,30 @@ func (dp *DataProcessor) startWindowProcessing() {
 					// Channel closed, exit
 					return
 				}
-				dp.processWindowBatch(batch)
+				dp.processWindowBatchRecovering(batch)
 			case <-dp.stream.done:
 				// Stream stopped, exit
 				return
 			}
 		}
 	}()
+}
+
+// processWindowBatchRecovering processes one window batch and recovers a panic
+// raised while doing so (a custom function in an aggregate argument, a
+// synchronous sink): that batch is lost, but the consumer goroutine lives on and
+// later windows are still delivered. The aggregator is reset so that rows of the
+// failed batch do not leak into the next one.
+func (dp *DataProcessor) processWindowBatchRecovering(batch []types.Row) {
+	defer func() {
+		if r := recover(); r != nil {
+			dp.stream.log.Error("Window batch processing panic recovered: %v", r)
+			if dp.stream.aggregator != nil {
+				dp.stream.aggregator.Reset()
+			}
+		}
+	}()
+	dp.processWindowBatch(batch)
 }
 
 // processWindowBatch processes window batch data
